@@ -91,6 +91,8 @@ func main() {
 				runHook(emit, f[3])
 			case "cfg":
 				runCfg(emit, f[3])
+			case "shut":
+				runShut(emit, f[2], f[3])
 			}
 		})
 		closeValWorlds()
@@ -144,6 +146,17 @@ func main() {
 			runVal(emit, mode, h)
 		})
 		closeValWorlds()
+	case "shut":
+		if n < 0 {
+			n = 12
+		}
+		parallel(out, n, 4, func(k int, emit func(string)) {
+			if a.Only >= 0 && k != a.Only {
+				return
+			}
+			c, sc := genShutCase(root.Fork(uint64(k)))
+			runShut(emit, c, sc)
+		})
 	case "hook", "cfg":
 		if n < 0 {
 			n = 400
